@@ -9,6 +9,7 @@ import Driver.Util
   huf <tableLog> <w0,w1,..> <hex tree|-> <hex literals> -> section=<hex|none> form=direct|given rt=ok|FAIL:..|-
         weights of symbols 0..maxSymbolValue (from the library's code lengths); tree description `-` = the model's direct form
         (LitEnc.directWeights), otherwise the library's own tree description bytes (FSE-compressed weights) are placed in the section
+  huf4 <tableLog> <w0,w1,..> <hex literals>            -> same as huf with the direct tree description, but always FOUR streams
   dec <hex section> <hex literals>                     -> rt=ok|FAIL:..   (`Block.decodeLiterals` on the library's section)
 The section is decoded followed by one more byte (the start of the sequences section), as inside a block.
 -/
@@ -59,6 +60,21 @@ def step (_ : Unit) (ws : List String) : Unit × String :=
           let sec := LitEnc.compressedLiterals single (unhex tree) streams lits.length
           ((), s!"section={hex sec} form=given rt={roundTrip sec src .compressed}")
         | none => ((), "section=none form=given rt=-")
+  | ["huf4", lg, wstr, hx] =>
+      -- four streams whatever the size (the format allows them from 6 literals on; the bundled compressor only uses them from 256)
+      let weights := parseWeights wstr
+      let src := unhex hx
+      let lits := src.toList.map UInt8.toNat
+      let codes := HufEnc.codesOf weights lg.toNat!
+      let (s1, s2, s3, s4) := HufEnc.segments lits
+      let w := fun (sg : List Nat) => BitW.ofFields (HufEnc.encode1 codes sg)
+      match LitEnc.directWeights weights.toList.dropLast, HufEnc.layout4 (w s1) (w s2) (w s3) (w s4) with
+      | some hdr, some streams =>
+        let sec := LitEnc.compressedLiterals false hdr streams lits.length
+        -- the same streams behind a "repeat the previous table" header (for a later block of the same frame)
+        let rep := LitEnc.compressedLiterals false ByteArray.empty streams lits.length LitEnc.set_repeat
+        ((), s!"section={hex sec} form=direct4 rt={roundTrip sec src .compressed} treeless={hex rep}")
+      | _, _ => ((), "section=none form=direct4 rt=-")
   | ["dec", shx, hx] =>
       let sec := unhex shx
       let lits := unhex hx
